@@ -615,7 +615,14 @@ func (w *World) streamAmount(op *Op, rate int64) *big.Int {
 		r = big.NewInt(1)
 	}
 	v := new(big.Int).Mul(r, new(big.Int).SetUint64(op.M))
-	v.Add(v, parseBig(op.Amt))
+	rem, ok := new(big.Int).SetString(op.Amt, 10) // may be negative: just below a whole number of seconds
+	if !ok {
+		rem = new(big.Int)
+	}
+	v.Add(v, rem)
+	if v.Sign() <= 0 {
+		v = new(big.Int).Mul(r, new(big.Int).SetUint64(op.M))
+	}
 	return v
 }
 
